@@ -161,7 +161,77 @@ def correspondence(ctx):
         if all(g["cells"][i]["k"] == "opt" for i in key) and real != mod:
             add_failure(out, "corr", "cells_changed_by differs from model program", rq, mod, real, confirmed=False)
     _corr_ctl(ctx, out)
+    _corr_rules(ctx, out)
     return out
+
+
+def _corr_rules(ctx, out):
+    """one parameter's scoped settings on a REAL likelihood function vs Model/ParamRules.lean: after
+    every set_param_rule (random scopes / constant / init / bounds / independent, malformed argument
+    combinations) the exported rules of that parameter and its number of free parameters; errors by
+    class; finally the REAL round trip (exported rules applied to a new function) against the model's"""
+    from . import c07_rules as R
+
+    rng = ctx.subrng("corr-rules")
+    reqs, reals = [], []
+    for _ in range(ctx.budget(120, 1500)):
+        model, par = rng.choice(R.PARS)
+        taxa_idx = rng.randrange(3)
+        lf, edges, d = R.setup(taxa_idx, model, par)
+        ops = [R.rand_op(rng, d["n"], par) for _ in range(rng.randint(1, 8))]
+        steps = []
+        for op in ops:
+            err = R.apply_real(lf, par, edges, op)
+            steps.append(dict(err=err, rules=R.canon_real_rules(lf, par, edges),
+                              nfp=lf.defn_for[par].get_num_free_params()))
+        # the real round trip
+        from .c07_lf import _Quiet, new_lf
+
+        fresh = new_lf(dict(model=model, taxa=taxa_idx, aln0=0))
+        with _Quiet():
+            fresh.apply_param_rules([r for r in lf.get_param_rules() if r["par_name"] == par])
+        rt = dict(rules=R.canon_real_rules(fresh, par, edges), nfp=fresh.defn_for[par].get_num_free_params())
+        reqs.append(("rules", R.to_req(d, ops)))
+        reals.append((ops, steps, d, model, par, rt))
+    for (ops, steps, d, model, par, rt), m in zip(reals, ctx.driver.batch(reqs)):
+        out["evaluations"] += 1
+        inp = dict(model=model, par=par, defn=d, ops=ops)
+        if "error" in m:
+            add_failure(out, "corr", "rules model: driver error", inp, None, m, confirmed=False)
+            continue
+        ok = True
+        for i, (a, b) in enumerate(zip(steps, m["steps"])):
+            bump(out, "rules_step", "raises:" + a["err"] if a["err"] else "ok")
+            if a["err"] or "err" in b:
+                if (a["err"] or None) != b.get("err"):
+                    if not (a["err"] and "err" in b):
+                        add_failure(out, "corr", "set_param_rule raises differently from the model",
+                                    dict(inp, ops=ops[: i + 1]), b.get("err"), a["err"], confirmed=False)
+                        ok = False
+                        break
+                continue
+            mr = R.canon_model_rules(b["rules"])
+            if not R.rules_close(a["rules"], mr) or a["nfp"] != b["nfp"]:
+                add_failure(out, "corr", "exported rules / nfp of the parameter differ from the model",
+                            dict(inp, ops=ops[: i + 1]), dict(rules=mr, nfp=b["nfp"]),
+                            dict(rules=a["rules"], nfp=a["nfp"]), confirmed=False)
+                ok = False
+                break
+        if not ok:
+            continue
+        mrt = m["roundtrip"]
+        if "err" in mrt or not R.rules_close(rt["rules"], R.canon_model_rules(mrt["rules"])) or rt["nfp"] != mrt["nfp"]:
+            add_failure(out, "corr", "round trip of exported rules on a new function differs from the model's",
+                        inp, mrt, rt, confirmed=False)
+            continue
+        # property level, on the real code: the re-imported function exports the same rules and nfp
+        if not R.rules_close(rt["rules"], steps[-1]["rules"]) or rt["nfp"] != steps[-1]["nfp"]:
+            add_failure(out, "spec", "get_param_rules -> apply_param_rules on a new function does not reproduce the "
+                        "parameter's scoped settings", dict(kind="rules", **inp), steps[-1], rt,
+                        sig=f"rules:roundtrip:{'indep' if d['indep'] else 'shared'}")
+            continue
+        if len(steps[-1]["rules"]) > 1:
+            out["nontrivial"].add(("rules", len(out["nontrivial"])))
 
 
 def _corr_ctl(ctx, out):
@@ -443,6 +513,46 @@ def _ctl_check(rq, init, steps):
     return None
 
 
+def _rules_real_roundtrip(model, par, taxa_idx, ops):
+    """REAL code only: history of set_param_rule on one parameter, export, apply to a new function,
+    compare the parameter's exported rules, nfp and lnL. Returns a failure dict or None."""
+    from . import c07_rules as R
+    from .c07_lf import _Quiet, close, new_lf
+
+    lf, edges, d = R.setup(taxa_idx, model, par)
+    for op in ops:
+        R.apply_real(lf, par, edges, op)
+    before = dict(rules=R.canon_real_rules(lf, par, edges), nfp=int(lf.nfp))
+    fresh = new_lf(dict(model=model, taxa=taxa_idx, aln0=0))
+    with _Quiet():
+        fresh.apply_param_rules(lf.get_param_rules())
+        after = dict(rules=R.canon_real_rules(fresh, par, edges), nfp=int(fresh.nfp))
+        l1, l2 = float(lf.lnL), float(fresh.lnL)
+    if not R.rules_close(before["rules"], after["rules"]) or before["nfp"] != after["nfp"] or not close(l1, l2):
+        return dict(what="get_param_rules -> apply_param_rules on a new function does not reproduce the "
+                         "parameter's scoped settings / nfp / lnL",
+                    sig=f"rules:roundtrip:{'indep' if d['indep'] else 'shared'}",
+                    input=dict(kind="rules", model=model, par=par, taxa=taxa_idx, ops=ops),
+                    expected=dict(before, lnL=l1), got=dict(after, lnL=l2))
+    return None
+
+
+def _spec_rules(ctx, out, rng, n):
+    from . import c07_rules as R
+
+    for _ in range(n):
+        model, par = rng.choice(R.PARS)
+        taxa_idx = rng.randrange(3)
+        nedges = 2 * len(R.TAXA_SETS[taxa_idx][0]) - 3
+        ops = [R.rand_op(rng, nedges, par) for _ in range(rng.randint(1, 8))]
+        out["evaluations"] += 1
+        f = _rules_real_roundtrip(model, par, taxa_idx, ops)
+        if f:
+            add_failure(out, "spec", f["what"], f["input"], f["expected"], f["got"], sig=f["sig"])
+        else:
+            out["nontrivial"].add(("spec-rules", json.dumps(ops[:2])))
+
+
 def spec_check(ctx, budget):
     out = new_outcome(
         "(a) REAL Calculator on random cell graphs/histories vs an independent from-scratch evaluation at the vector "
@@ -456,6 +566,7 @@ def spec_check(ctx, budget):
     rng = ctx.subrng(f"spec{budget}")
     _spec_calc(ctx, out, rng, 600 * budget)
     _spec_ctl(ctx, out, rng, 300 * budget)
+    _spec_rules(ctx, out, rng, 60 * budget)
     n_cases = 60 * budget if not ctx.thorough else 40 * budget
     _spec_lf(ctx, out, rng, n_cases, 7, (4, 10, 25))
     return out
@@ -496,6 +607,11 @@ def _replay_input(inp):
         want = cc.fresh_python(inp["graph"], s["last"])
         print("reported vector", s["last"], "buffer", s["cur"], "fresh", want)
         return want != s["cur"] or s["reported"] != s["last"]
+    if inp.get("kind") == "rules":
+        f = _rules_real_roundtrip(inp["model"], inp["par"], inp["taxa"], inp["ops"])
+        if f:
+            print("expected", f["expected"], "got", f["got"])
+        return bool(f)
     if inp.get("kind") == "ctl":
         from . import c07_ctl as ct
 
